@@ -20,6 +20,8 @@ import (
 // in a sibling field of the same literal, and two identity fields never derive
 // from the same identity call. Dense-id maps follow the idiom
 // `v, ok := M[k]; if !ok { v = len(M); M[k] = v }` on one map and one key.
+var identityMemo []*ssa.Lookup
+
 func identityCalls(v ssa.Value) []*ssa.Call {
 	var out []*ssa.Call
 	core.BackSlice(v, func(x ssa.Value) bool {
@@ -31,8 +33,14 @@ func identityCalls(v ssa.Value) []*ssa.Call {
 		}
 		// through a dense-id map: the looked-up key
 		if lk, ok := x.(*ssa.Lookup); ok {
-			for _, c2 := range identityCalls(lk.Index) {
+			viaKey := identityCalls(lk.Index)
+			for _, c2 := range viaKey {
 				out = append(out, c2)
+			}
+			if _, isMap := lk.X.Type().Underlying().(*types.Map); isMap && len(viaKey) == 0 {
+				// a table of identity values looked up by something that is not the identity (a memo keyed by a few
+				// fields of the entity): entities that agree on the key share one identity
+				identityMemo = append(identityMemo, lk)
 			}
 			return false
 		}
@@ -64,6 +72,7 @@ func rt_24(c *core.Ctx, p *core.Prog) {
 				calls []*ssa.Call
 			}
 			var ids []idf
+			var memoMsgs []string
 			for _, r := range core.Referrers(al) {
 				fa, ok := r.(*ssa.FieldAddr)
 				if !ok {
@@ -79,8 +88,12 @@ func rt_24(c *core.Ctx, p *core.Prog) {
 						continue
 					}
 					if b, isB := st.Val.Type().Underlying().(*types.Basic); isB && (b.Kind() == types.String || b.Info()&types.IsInteger != 0) {
+						identityMemo = nil
 						if cs := identityCalls(st.Val); len(cs) > 0 {
 							ids = append(ids, idf{core.FieldName(fa), cs})
+							for _, lk := range identityMemo {
+								memoMsgs = append(memoMsgs, fmt.Sprintf("identity field %s can be taken from the table %s looked up by a key that is not the identity (%s): entities that agree on that key but differ elsewhere (attributes, dropped count) get one identity and are merged", core.FieldName(fa), valueLabel(lk.X), p.Pos(lk.Pos())))
+							}
 						}
 					}
 				}
@@ -90,7 +103,7 @@ func rt_24(c *core.Ctx, p *core.Prog) {
 			}
 			sort.Slice(ids, func(a, b int) bool { return ids[a].name < ids[b].name })
 			n++
-			var msgs []string
+			msgs := append([]string{}, memoMsgs...)
 			seenCall := map[*ssa.Call]string{}
 			for _, f := range ids {
 				if len(f.calls) != 1 {
